@@ -1,9 +1,10 @@
-(** C09 — executable model of pkg/obialign: packed cells (fastlcs.go), _samenuc/_iupac and the banded
+(** C09 — executable model of pkg/obialign: packed cells (fastlcs.go), _samenuc/_iupac (table from Gen/Tables.v) and the banded
     two-row anti-diagonal LCS kernel FastLCSEGFScoreByte (fastlcsegf.go), D1Or0 (is_d0_or_d1.go),
     plus the reference full-matrix recursion lcs_ref. Definitions only. Bytes and uint64 words are [N]
     (wraps written out), Go ints are [Z]. *)
 From Coq Require Import NArith ZArith List Bool.
 Import ListNotations.
+From OBI.C09.Gen Require Import Tables.
 Open Scope N_scope.
 
 (* ---------------------------------------------------------------- fastlcs.go: packed words *)
@@ -31,8 +32,8 @@ Definition c_out : N := enc 0 30000 true.
 Definition c_notavail : N := enc 0 30000 false.
 
 (* ---------------------------------------------------------------- _iupac / _samenuc *)
-Definition iupac : list N :=
-  [1; 14; 2; 13; 0; 0;  4; 11; 0; 0; 12; 0;  3; 15; 0; 0; 0; 5;  6; 8; 8; 7; 9; 0;  10; 0].
+(** the table _iupac of the build under test, regenerated into Gen/Tables.v on every run *)
+Definition iupac : list N := iupac_tab.
 
 Definition lower (a : N) : N := if (65 <=? a) && (a <=? 90) then N.lor a 32 else a.
 Definition is_lc (a : N) : bool := (97 <=? a) && (a <=? 122).
@@ -132,10 +133,56 @@ Section Kernel.
     end.
 End Kernel.
 
-(** FastLCSEGFScoreByte(bA, bB, maxError, endgapfree, buffer); [init] is the content of *buffer (whole
-    capacity) at the call, [] for a nil buffer. Result (score, length, end). *)
-Definition lcs_band (a b : list N) (maxerr : Z) (egf : bool) (init : list N) : Z * Z * Z :=
-  let '(bA, bB) := if (zlen a <? zlen b)%Z then (b, a) else (a, b) in
+(* ---------------------------------------------------------------- the same cells as a full matrix restricted to the band *)
+(** Specification-level twin of the kernel's cell computation: the value of cell (i, j) (i along B, j along A) of
+    the (|B|+1) x (|A|+1) matrix from the values of its diagonal, upper and left neighbours. The band is the set of
+    diagonals 0 <= j - i + 2*extra <= 2*(even-1); the two extreme diagonals are forced "out", and the neighbour
+    that would lie outside the band is replaced by c_out. No buffers, no anti-diagonal indexing. *)
+Section Matrix.
+  Variables (egf : bool) (bA bB : list N) (lB extra even : Z).
+
+  Definition mtriple (i j : Z) (vd vu vl : N) : N * N * N :=
+    let x2 := (j - i + 2 * extra)%Z in
+    if (i =? 0)%Z then (c_notavail, c_notavail, if egf then enc 0 0 false else enc 0 (Z.to_N j) false)
+    else if (j =? 0)%Z then (c_notavail, enc 0 (Z.to_N i) false, c_notavail)
+    else
+      let d0 := incpath vd in
+      let d := if samenuc (get bA (j - 1)) (get bB (i - 1)) then incscore d0 else d0 in
+      let u := if (x2 <? 2 * (even - 1))%Z then incpath vu else c_out in
+      let l := if (0 <? x2)%Z then
+                 (if ((0 <? i)%Z && (i <? lB)%Z) || negb egf then incpath vl else vl)
+               else c_out in
+      (d, u, l).
+
+  Definition mcell (i j : Z) (vd vu vl : N) : N :=
+    let x2 := (j - i + 2 * extra)%Z in
+    let '(Sdiag, Sup, Sleft) := mtriple i j vd vu vl in
+    let score := N.max Sdiag (N.max Sup Sleft) in
+    if (x2 =? 0)%Z || (x2 =? 2 * (even - 1))%Z then setout score else score.
+
+  (** end-gap-free bookkeeping (pend, end) of one cell *)
+  Definition mpe (i j : Z) (vd vu vl : N) (pe : Z * Z) : Z * Z :=
+    let '(Sdiag, Sup, Sleft) := mtriple i j vd vu vl in snd (choose egf i lB j Sdiag Sup Sleft pe).
+
+  (** cw n i = cell (i, n - i), by recursion on the anti-diagonal number n *)
+  Fixpoint cw (n : nat) (i : Z) : N :=
+    match n with
+    | O => mcell i (0 - i) 0 0 0
+    | S n1 =>
+      let j := (Z.of_nat n - i)%Z in
+      match n1 with
+      | O => mcell i j 0 (cw n1 (i - 1)) (cw n1 i)
+      | S n2 => mcell i j (cw n2 (i - 1)) (cw n1 (i - 1)) (cw n1 i)
+      end
+    end.
+
+  (** the banded matrix *)
+  Definition bmat (i j : Z) : N := cw (Z.to_nat (i + j)) i.
+End Matrix.
+
+(** FastLCSEGFScoreByte(bA, bB, maxError, endgapfree, buffer) after the swap that makes bA the longer sequence;
+    [init] is the content of *buffer (whole capacity) at the call, [] for a nil buffer. Result (score, length, end). *)
+Definition lcs_core (bA bB : list N) (maxerr : Z) (egf : bool) (init : list N) : Z * Z * Z :=
   let lA := zlen bA in
   let lB := zlen bB in
   let maxe := if (maxerr =? -1)%Z then (lA * 2)%Z else maxerr in
@@ -155,6 +202,9 @@ Definition lcs_band (a b : list N) (maxerr : Z) (egf : bool) (init : list N) : Z
   let '(previous, _, pe) := rows egf bA bB lA lB extra even (Z.to_nat ny) 1%Z (previous, current, (0, 0)%Z) in
   let '(s, l, o) := dec (get previous ((delta mod 2) * even + extra + delta / 2)%Z) in
   if o then (-1, -1, -1)%Z else (Z.of_N s, Z.of_N l, snd pe).
+
+Definition lcs_band (a b : list N) (maxerr : Z) (egf : bool) (init : list N) : Z * Z * Z :=
+  if (zlen a <? zlen b)%Z then lcs_core b a maxerr egf init else lcs_core a b maxerr egf init.
 
 (** FastLCSScore / FastLCSEGFScore on the nucleotides of the two sequences *)
 Definition fast_lcs_score (a b : list N) (maxerr : Z) (init : list N) : Z * Z :=
@@ -246,10 +296,41 @@ Definition band_ok_on (alpha : list N) (n : nat) : bool :=
      forallb (fun m => band_spec_ok_r r (fast_lcs_score a b m []) m) (zrange (-1) (Z.of_nat n + 2)))
      (seqs_upto alpha n)) (seqs_upto alpha n).
 
+(* ---------------------------------------------------------------- reference for the end-gap-free mode *)
+(** value of the best alignment of a (the longer sequence) and b where the columns that consume a symbol of a only
+    are free (not counted in the length) as long as no symbol of b has been consumed ([started] = false) and after
+    the last symbol of b has been consumed (b = []): maximum number of matches, then the shortest counted length.
+    Full recursion on the suffixes, no band. *)
+Fixpoint egf_ref (a b : list N) (started : bool) {struct a} : nat * nat :=
+  match a with
+  | [] => (O, length b)
+  | x :: a' =>
+    (fix inner (b : list N) (started : bool) : nat * nat :=
+       match b with
+       | [] => (O, O)
+       | y :: b' =>
+         best (stepm (samenuc x y) (egf_ref a' b' true))
+              (best (step1 (inner b' true))
+                    (if started then step1 (egf_ref a' b started) else egf_ref a' b started))
+       end) b started
+  end.
+
+(** FastLCSEGFScore swaps the sequences so that the first one is the longer *)
+Definition lcs_ref_egf (a b : list N) : nat * nat :=
+  if (length a <? length b)%nat then egf_ref b a false else egf_ref a b false.
+
+Definition fast_lcs_egf_sl (a b : list N) (m : Z) (init : list N) : Z * Z :=
+  let '(s, l, _) := lcs_band a b m true init in (s, l).
+
 (* ---------------------------------------------------------------- correspondence cases *)
 Inductive ccase :=
 | CL (a b : list N) (m : Z) (egf : bool) (init : list N) (s l e : Z)   (* e is ignored when egf = false *)
-| CD (a b : list N) (d pos : Z) (a1 a2 : N).
+| CD (a b : list N) (d pos : Z) (a1 a2 : N)
+| CR (a b : list N) (egf : bool) (rs rl : Z).                          (* reference pair computed by the Python oracle *)
+
+Definition ref_ok (a b : list N) (egf : bool) (rs rl : Z) : bool :=
+  let r := if egf then lcs_ref_egf a b else lcs_ref a b in
+  (Z.of_nat (fst r) =? rs)%Z && (Z.of_nat (snd r) =? rl)%Z.
 
 Definition case_ok (c : ccase) : bool :=
   match c with
@@ -259,6 +340,7 @@ Definition case_ok (c : ccase) : bool :=
   | CD a b d pos a1 a2 =>
     let '(d', pos', a1', a2') := d1or0 a b in
     (d' =? d)%Z && (pos' =? pos)%Z && (a1' =? a1) && (a2' =? a2)
+  | CR a b egf rs rl => ref_ok a b egf rs rl
   end.
 
 Fixpoint mismatches_from (i : nat) (l : list ccase) : list nat :=
